@@ -92,6 +92,8 @@ structure Col (α : Type) (n : Nat) where
 
 /-- Per-column tridiagonalisation state. -/
 structure Tri (α : Type) where
+  /-- the column is among the first `n_tridiag` columns -/
+  on : Bool := false
   prevAlphaRecip : α
   prevBeta : α
   t : Nat → Nat → α
@@ -202,12 +204,12 @@ def alphaRecip (N : NumOps α) (a : α) : α := if N.eqz a then 1 else 1 / a
 def triStep (N : NumOps α) {n : Nat} (k : Nat) (c : Col α n) (t : Tri α) : Tri α :=
   let ar := alphaRecip N c.alpha
   if k = 0 then
-    { prevAlphaRecip := ar, prevBeta := c.beta, t := upd t.t 0 0 ar }
+    { t with prevAlphaRecip := ar, prevBeta := c.beta, t := upd t.t 0 0 ar }
   else
     let d := ar + t.prevBeta * t.prevAlphaRecip            -- addcmul(alpha_reciprocal, prev_beta, prev_alpha_reciprocal)
     let o := N.sqrt t.prevBeta * t.prevAlphaRecip          -- mul(prev_beta.sqrt_(), prev_alpha_reciprocal)
-    { prevAlphaRecip := ar, prevBeta := c.beta,
-      t := upd (upd (upd t.t k k d) k (k - 1) o) (k - 1) k o }
+    { t with prevAlphaRecip := ar, prevBeta := c.beta,
+             t := upd (upd (upd t.t k k d) k (k - 1) o) (k - 1) k o }
 
 /-- Whole-call loop state. -/
 structure St (α : Type) (n : Nat) where
@@ -232,13 +234,13 @@ def stepCols (N : NumOps α) (P : Params α) {n : Nat} (sys : List (SysZ α n))
     (cs : List (Col α n × Tri α)) : List (Col α n × Tri α) :=
   List.zipWith (fun (s : SysZ α n) ct => (colStep N P s.1 s.2 ct.1, ct.2)) sys cs
 
-def triCols (N : NumOps α) {n : Nat} (k : Nat) (sys : List (SysZ α n))
+def triCols (N : NumOps α) {n : Nat} (k : Nat)
     (cs : List (Col α n × Tri α)) : List (Col α n × Tri α) :=
-  List.zipWith (fun (s : SysZ α n) ct => if s.1.tri then (ct.1, triStep N k ct.1 ct.2) else ct) sys cs
+  cs.map fun ct => if ct.2.on then (ct.1, triStep N k ct.1 ct.2) else ct
 
 /-- `t_mat[k - 1, k]` of the tridiagonal columns. -/
-def offDiags {n : Nat} (k : Nat) (sys : List (SysZ α n)) (cs : List (Col α n × Tri α)) : List α :=
-  (List.zipWith (fun (s : SysZ α n) ct => if s.1.tri then [ct.2.t (k - 1) k] else []) sys cs).flatten
+def offDiags {n : Nat} (k : Nat) (cs : List (Col α n × Tri α)) : List α :=
+  (cs.map fun ct => if ct.2.on then [ct.2.t (k - 1) k] else []).flatten
 
 /-- `for k in range(n_iter)`: `fuel` iterations remain, the next one has index `k`. -/
 def iterate (N : NumOps α) (P : Params α) {n : Nat} (sys : List (SysZ α n)) (nTriIter : Nat) :
@@ -251,8 +253,8 @@ def iterate (N : NumOps α) (P : Params α) {n : Nat} (sys : List (SysZ α n)) (
     if stopNow N P nTriIter k (cs1.map fun ct => ct.1.rn) then
       { st1 with tolReached := true }
     else if decide (0 < P.nTridiag) && decide (k < nTriIter) && st.updTri then
-      let cs2 := triCols N k sys cs1
-      let off := decide (k ≠ 0) && N.lt (lmax N (offDiags k sys cs2)) P.triOff
+      let cs2 := triCols N k cs1
+      let off := decide (k ≠ 0) && N.lt (lmax N (offDiags k cs2)) P.triOff
       iterate N P sys nTriIter fuel (k + 1)
         { st1 with cs := cs2, lastTri := k, updTri := !off }
     else
@@ -286,11 +288,12 @@ def linearCgCore (N : NumOps α) (P : Params α) {n : Nat} (sys : List (Sys α n
   let skip := cols.all (fun c => c.conv) && decide (P.nTridiag = 0)
   let nIter := if skip then 0 else nIterOf P n
   let sysz : List (SysZ α n) := List.zipWith (fun s (q : Prep α n) => (s, q.isZero)) sys preps
-  let st0 : St α n := { cs := cols.map fun c => (c, emptyTri), updTri := true, lastTri := 0,
+  let st0 : St α n := { cs := List.zipWith (fun (s : Sys α n) c => (c, { (emptyTri : Tri α) with on := s.tri })) sys cols,
+                        updTri := true, lastTri := 0,
                         tolReached := false, iters := 0, trace := [] }
   let st := iterate N P sysz nTriIter nIter 0 st0
   let xs := List.zipWith (fun (ct : Col α n × Tri α) (q : Prep α n) => (fun i => ct.1.x i * q.nrm : Vec α n)) st.cs preps
-  let ts := (List.zipWith (fun (s : Sys α n) (ct : Col α n × Tri α) => if s.tri then [ct.2.t] else []) sys st.cs).flatten
+  let ts := (st.cs.map fun (ct : Col α n × Tri α) => if ct.2.on then [ct.2.t] else []).flatten
   { x := xs, t := ts, tSize := if P.nTridiag = 0 then 0 else min (st.lastTri + 1) nTriIter,
     warn := !st.tolReached && decide (0 < nIter), iters := st.iters,
     rns := st.cs.map fun ct => ct.1.rn,
